@@ -32,6 +32,7 @@ inductive Top where
   | plain (sp : Space Float)
   | dubins (rho : Float) (sym : Bool) (lo hi : List Float)
   | rs (rho : Float) (lo hi : List Float)
+  | x (sp : Car.XSpace Float)      -- wrappers / compounds with Dubins / Reeds-Shepp leaves (`Car.xinterp`)
   | nomodel
 deriving Inhabited
 
@@ -79,6 +80,50 @@ def pTopPlain : P (Space Float)
     pure (.wrap s, r)
   | r => pSpaceX r
 
+/-- the `XSpace` skeleton: `cmp` / `wrap` opened, Dubins / Reeds-Shepp leaves, anything else a car-free `base` leaf -/
+partial def pX : P (Car.XSpace Float)
+  | "cmp" :: r => do
+    let (k, r) ← pNat r
+    let rec go : Nat → List String → Option (Car.XSpace Float × List String)
+      | 0, r => some (.xnil, r)
+      | n + 1, r => do
+        let (w, r) ← pFloat r
+        let (h, r) ← pX r
+        let (t, r) ← go n r
+        pure (.xcons w h t, r)
+    go k r
+  | "wrap" :: r => do
+    let (s, r) ← pX r
+    pure (.wrap s, r)
+  | "dubins" :: r => do
+    let (rho, r) ← pFloat r
+    let (sym, r) ← pNat r
+    let (lo, r) ← pFloats 2 r
+    let (hi, r) ← pFloats 2 r
+    pure (.dubins rho (sym != 0) lo hi, r)
+  | "rs" :: r => do
+    let (rho, r) ← pFloat r
+    let (lo, r) ← pFloats 2 r
+    let (hi, r) ← pFloats 2 r
+    pure (.rs rho lo hi, r)
+  | r => do
+    let (s, r) ← pSpaceX r
+    pure (.base s, r)
+
+partial def pXState : Car.XSpace Float → P (St Float)
+  | .base s, r => pState s r
+  | .dubins .., r | .rs .., r => do
+    let (x, r) ← pFloat r
+    let (y, r) ← pFloat r
+    let (th, r) ← pFloat r
+    pure (Car.stOf ⟨x, y, th⟩, r)
+  | .xnil, r => some (.cnil, r)
+  | .xcons _ h t, r => do
+    let (sh, r) ← pXState h r
+    let (st, r) ← pXState t r
+    pure (.ccons sh st, r)
+  | .wrap s, r => pXState s r
+
 def pTop : P Top
   | "dubins" :: r => do
     let (rho, r) ← pFloat r
@@ -92,7 +137,14 @@ def pTop : P Top
     let (hi, r) ← pFloats 2 r
     pure (.rs rho lo hi, r)
   | r =>
-    if r.any (carKinds.contains ·) then some (.nomodel, [])
+    if r.any (["owen", "vana", "vanaowen"].contains ·) then some (.nomodel, [])
+    else if r.any (carKinds.contains ·) then
+      let body : Option (Car.XSpace Float × List String) := match r with
+        | "cfw" :: r' => (pX r').map (fun (s, r) => (Car.XSpace.wrap s, r))
+        | _ => pX r
+      match body with
+      | some (s, []) => some (.x s, [])
+      | _ => some (.nomodel, [])
     else (pTopPlain r).map (fun (s, r) => (.plain s, r))
 
 open OmplModel.Dubins in
@@ -199,6 +251,36 @@ def step (st : DSt) (ts : List String) : DSt × String :=
     let car := Car.rsCar rho
     (st, carStep lo hi (Car.direct Car.clsNum car ⟨0, 0, 0, 0, 0, 0⟩)
       (fun ls => (Car.walk (Car.cachedCall Car.clsNum car) ⟨true, ⟨0, 0, 0, 0, 0, 0⟩⟩ ls).map (·.1)) (op :: rest))
+  | some (.x xs) =>
+    let showO : Option (St Float) → String
+      | some v => joinSp (showState v)
+      | none => "nopath"
+    match op :: rest with
+    | "interp" :: rest =>
+      match (do
+        let (a, r) ← pXState xs rest
+        let (b, r) ← pXState xs r
+        let (t, r) ← pFloat r
+        if r.isEmpty then pure (a, b, t) else none) with
+      | some (a, b, t) =>
+        if !(Car.xinBounds xs a && Car.xinBounds xs b) then (st, "oob-input")
+        else (st, s!"r {showO (Car.xinterp xs a b t)}")
+      | none => (st, "bad-op")
+    | "interp2" :: rest =>
+      match (do
+        let (a, r) ← pXState xs rest
+        let (b, r) ← pXState xs r
+        let (s, r) ← pFloat r
+        let (u, r) ← pFloat r
+        if r.isEmpty then pure (a, b, s, u) else none) with
+      | some (a, b, s, u) =>
+        if !(Car.xinBounds xs a && Car.xinBounds xs b) then (st, "oob-input") else
+        let s3 := Car.xinterp xs a b s
+        let r := s3.bind (fun m => Car.xinterp xs m b u)
+        let d := Car.xinterp xs a b (s + (1 - s) * u)
+        (st, s!"s3 {showO s3} | r {showO r} | direct {showO d}")
+      | none => (st, "bad-op")
+    | _ => (st, "bad-op")
   | some (.plain sp0) =>
   let st' : Option (Space Float) := some sp0
   match op :: rest with
